@@ -124,7 +124,7 @@ func (s *NotifyFollowReader) startWatcher() (*fsnotify.Watcher, error) {
 	// When the path is a symbolic link, writes are reported for the file it
 	// points to (under that file's name, in that file's directory)
 	target := s.filename
-	if resolved, err := filepath.EvalSymlinks(s.filename); err == nil && path.Base(resolved) != path.Base(s.filename) {
+	if resolved, err := filepath.EvalSymlinks(s.filename); err == nil && resolved != path.Clean(s.filename) {
 		target = resolved
 		if path.Dir(target) != path.Dir(s.filename) {
 			if err := watcher.Add(path.Dir(target)); err != nil {
